@@ -10,6 +10,9 @@ from harness import common, framegen, vecgen
 
 LEVEL = {"partial": ["Python dict/tuple equality on NumPy scalars (key lookup) and np.where / fancy assignment are stand-ins validated by the correspondence run"]}
 ASSUMPTIONS = ["dict built front to back keeps the last index per key; tuple equality = element-wise ==, None == None, NaN != NaN"]
+# objects with a history are also left grouped by an earlier group_by (harness/warm.py): none of the
+# operations of this property is documented as group-wise
+WARM_GROUPED = True
 RULE = ("pairs of frames, 0..10 (thorough ..40) rows each, 1..2 key columns of one dtype kind per key position on both sides "
         "(10 kinds, tiny value pools: duplicates and missing keys on both sides are the norm), same-name and (left,right) renamed keys, "
         "one payload column per side; all five joins; non-trivial = both sides >=2 rows with a matched and an unmatched left row; "
